@@ -18,7 +18,9 @@
      set; per entry: type, permission+setuid/setgid/sticky (not for symlinks: Linux has none),
      uid/gid, ns mtime of every non-directory and of every directory the transfer created, bytes of
      regular files, symlink targets, device numbers, xattrs of regular files and directories the
-     transfer created ([created_by_transfer A s]: absent from A or of another type there);
+     transfer created ([created_by_transfer A s]: absent from A or of another type there; for a
+     hard-link entry the xattr clause applies when the first name of its group is created:
+     [inode_created] — a new name for an inode that stays in place shows that inode's xattrs);
      hard-link groups as a PARTITION of the paths of regular files: two paths show one inode in
      the destination iff they are in one link group of the source.
    * [AbsDest.identity_faithful d A B] (same identity key => same bytes) is part of the
@@ -26,7 +28,7 @@
      [unrestricted_convergence_refuted]. *)
 From Coq Require Import List NArith Bool Sorting.Sorted.
 From FS Require Import Sx Model.Path Model.Stat Model.Tree Model.Walk Model.Diff Model.AbsDest Model.Converge Model.ConvergeA
-  Proofs.Lex Proofs.DiffP Proofs.ReceiveP Proofs.OracleP Proofs.ConvergeP Proofs.MergeP Proofs.WalkWfP Proofs.DirTimesP Proofs.XattrViewP.
+  Proofs.Lex Proofs.DiffP Proofs.ReceiveP Proofs.OracleP Proofs.ConvergeP Proofs.MergeP Proofs.WalkWfP Proofs.DirTimesP Proofs.XattrViewP Proofs.C01TopP.
 Import ListNotations.
 Open Scope N_scope.
 
@@ -37,10 +39,7 @@ Theorem diff_apply_converges : forall (H : bytes -> bytes) (hdr : stat -> bytes)
   wf_entries A -> wf_entries B -> AbsDest.identity_faithful d A B ->
   let r := receive_abs H hdr Fresh d A B in
   ds_err r = false /\ approx A B (view_of (ds_map r)).
-Proof.
-  intros H hdr d A B [HwA HlA] [HwB HlB] Hf.
-  exact (diff_apply_converges_proof H hdr d A B HwA HwB HlA HlB Hf).
-Qed.
+Proof. exact diff_apply_converges_top. Qed.
 
 (* Merge mode: the result is the overlay of the source over the old destination.  Every source
    entry is there with exactly the stat that was sent (and its bytes); every old entry whose path
@@ -55,10 +54,7 @@ Theorem merge_is_overlay : forall (H : bytes -> bytes) (hdr : stat -> bytes) d A
              alookup p (ds_map r) = alookup p (dest_of A)) /\
   (forall s c, In (s, c) B -> exists e, alookup (st_path s) (ds_map r) = Some e /\ de_stat e = s /\
                                         (AbsDest.is_reg s = true -> de_bytes e = c)).
-Proof.
-  intros H hdr d A B HwA [HwB HlB].
-  exact (merge_is_overlay_proof H hdr d A B HwA HwB HlB).
-Qed.
+Proof. exact merge_is_overlay_top. Qed.
 
 (* Any prior content, in particular the leftovers of an aborted run (".tmp.*" names, partially
    written files): it suffices that a file of the old destination which does not hold the
@@ -70,10 +66,7 @@ Theorem converges_from_any_prior : forall (H : bytes -> bytes) (hdr : stat -> by
      ba = bb \/ st_size sa <> st_size sb \/ st_mtime sa <> st_mtime sb \/ st_mode sa <> st_mode sb) ->
   let r := receive_abs H hdr Fresh d A B in
   ds_err r = false /\ approx A B (view_of (ds_map r)).
-Proof.
-  intros H hdr d A B [HwA HlA] [HwB HlB] Hs.
-  exact (diff_apply_converges_proof H hdr d A B HwA HwB HlA HlB (faithful_from_stamps d A B Hs)).
-Qed.
+Proof. exact converges_from_any_prior_top. Qed.
 
 (* Oracle = specification.  The executable relation that the harness evaluates on the raw lstat
    snapshot of the real destination is, by definition, [converged_o] on the projected snapshot,
@@ -81,16 +74,12 @@ Qed.
 Theorem oracle_sound : forall merge prior src (dest : list raw),
   converged merge prior src dest = true ->
   if merge then approx_merge prior src (map obs_of_raw dest) else approx prior src (map obs_of_raw dest).
-Proof.
-  intros [|] prior src dest Hc.
-  - exact (proj1 (oracle_merge_iff_proof prior src (map obs_of_raw dest)) Hc).
-  - exact (proj1 (oracle_iff_proof prior src (map obs_of_raw dest)) Hc).
-Qed.
+Proof. exact oracle_sound_top. Qed.
 
 Theorem oracle_iff : forall prior src dest,
   (converged_o false prior src dest = true <-> approx prior src dest) /\
   (converged_o true prior src dest = true <-> approx_merge prior src dest).
-Proof. intros prior src dest. exact (conj (oracle_iff_proof prior src dest) (oracle_merge_iff_proof prior src dest)). Qed.
+Proof. exact oracle_iff_top. Qed.
 
 (* ... and the model's own result passes that oracle. *)
 Theorem model_passes_oracle : forall (H : bytes -> bytes) (hdr : stat -> bytes) d A B,
@@ -128,12 +117,7 @@ Theorem converges_on_walked_trees : forall (H : bytes -> bytes) (hdr : stat -> b
   AbsDest.identity_faithful d A B ->
   let r := receive_abs H hdr Fresh d A B in
   ds_err r = false /\ approx A B (view_of (ds_map r)).
-Proof.
-  intros H hdr d contA tA contB tB WA IA CA WB IB CB A B Hf.
-  destruct (walk_views_are_wf_proof contA tA WA IA CA) as [[HwA HlA] _].
-  destruct (walk_views_are_wf_proof contB tB WB IB CB) as [[HwB HlB] _].
-  exact (diff_apply_converges_proof H hdr d A B HwA HwB HlA HlB Hf).
-Qed.
+Proof. exact converges_on_walked_trees_top. Qed.
 
 (* Directory mtimes.  [receive_t] (Model/ConvergeA.v) runs the same writer with the on-disk
    behaviour of directory mtimes: every create / rename-into-place / remove stamps the parent
